@@ -11,23 +11,14 @@ REDIRECT="pipe fcntl close dup2 read write poll open fileno fork execvp _exit wa
 ALLOW="strlen memcpy strchr strcpy memset abs __xpg_strerror_r strerror_r __errno_location memmove strcmp __stack_chk_fail _GLOBAL_OFFSET_TABLE_"
 ARGS=""
 for s in $REDIRECT; do ARGS="$ARGS --redefine-sym $s=sim_$s"; done
-OBJS=""
-for f in $SRC; do
-  gcc $FLAGS $EXTRA -I"$REPO/reproc/include" -I"$REPO/reproc/src" -c "$REPO/reproc/src/$f.c" -o "$OUT/$f.raw.o"
-  OBJS="$OBJS $OUT/$f.o"
-done
+rm -f "$OUT"/*.o "$OUT"/cc.err
+echo $SRC | tr ' ' '\n' | xargs -P 14 -I{} sh -c "gcc $FLAGS $EXTRA -I'$REPO/reproc/include' -I'$REPO/reproc/src' -c '$REPO/reproc/src/{}.c' -o '$OUT/{}.raw.o' 2>>'$OUT/cc.err' || echo FAILED {} >> '$OUT/cc.err'"
+if grep -q FAILED "$OUT/cc.err" 2>/dev/null; then echo "COMPILE-FAILED:"; grep -v "^$" "$OUT/cc.err" | head -20; exit 4; fi
+OBJS=""; RAW=""
+for f in $SRC; do OBJS="$OBJS $OUT/$f.o"; RAW="$RAW $OUT/$f.raw.o"; done
 # every undefined symbol must be reproc's own, redirected, or an allowed pure helper
-DEFINED=$(for f in $SRC; do nm --defined-only "$OUT/$f.raw.o" | awk '{print $3}'; done | sort -u)
-BAD=""
-for f in $SRC; do
-  for u in $(nm -u "$OUT/$f.raw.o" | awk '{print $2}'); do
-    if echo "$DEFINED" | grep -qx "$u"; then continue; fi
-    if echo " $REDIRECT " | grep -q " $u "; then continue; fi
-    if echo " $ALLOW " | grep -q " $u "; then continue; fi
-    case "$u" in __asan*|__ubsan*|__sanitizer*|__gcov*|__llvm*) continue;; esac
-    BAD="$BAD $u($f)"
-  done
-done
-if [ -n "$BAD" ]; then echo "UNSIMULATED-SYMBOLS:$BAD"; exit 3; fi
+nm --defined-only $RAW | awk 'NF==3{print $3}' | sort -u > "$OUT/defined.txt"
+BAD=$(nm -u $RAW | awk 'NF==2{print $2}' | sort -u | grep -vxF -f "$OUT/defined.txt" | grep -vxF -f <(echo $REDIRECT $ALLOW | tr ' ' '\n') | grep -v '^__asan\|^__ubsan\|^__sanitizer\|^__gcov\|^__llvm' || true)
+if [ -n "$BAD" ]; then echo "UNSIMULATED-SYMBOLS: $BAD"; exit 3; fi
 for f in $SRC; do objcopy $ARGS "$OUT/$f.raw.o" "$OUT/$f.o"; done
 echo "$OBJS" > "$OUT/objs.txt"
